@@ -26,6 +26,9 @@ def check(sc, obs):
                 return f"entering failed: entered {sorted(entered)} but exited {ex}"
         return None
     if not body_ran:
+        if not obs.get("cancel_delivered") and obs.get("self_cancelled") is None:
+            return (f"every one of the {n} disposable(s) entered (nothing failed, nobody cancelled) but the body never ran: "
+                    f"the block ended with {obs.get('outcome')!r}")
         return None
     if obs.get("cancel_delivered") and sc["cancel_at"] >= obs.get("body_end_time", 1e9):
         return None     # cancellation delivered while the exits run: outside this property's quantifier (see C07/C02)
